@@ -275,9 +275,13 @@ def run(ctx):
             # runs stay in step even when the implementation's process had to be restarted after a crash
             seqs = [s if s and s[0] == "reset" else ["reset"] + s for s in seqs]
             impl = run_batch([exe], seqs, env=dict(os.environ, ASAN_OPTIONS="detect_leaks=0"))
-            text = "".join(l + "\n" for s in seqs for l in s)
+            # model and spec both get the op lines annotated with the implementation's own answer
+            # (`@ RET SIZE`): the spec takes them as the choices the property leaves open, the model
+            # FOLLOWS the observed capacity (growth policy = parameter of the model, learnt
+            # behaviourally; an inadmissible choice makes model and spec disagree with the code)
+            text = annotate(seqs, [a for a, _ in impl])
             mlines = ctx.model("cbuf", text, args=["model"])
-            slines = ctx.model("cbuf", annotate(seqs, [a for a, _ in impl]), args=["spec"])
+            slines = ctx.model("cbuf", text, args=["spec"])
             pos = 0
             for s, (ans, crash) in zip(seqs, impl):
                 m = mlines[pos:pos + len(s)]
@@ -341,8 +345,7 @@ def shrink(ctx, exe, seq, against):
         (ans, crash), = run_batch([exe], [s], timeout=30, env=dict(os.environ, ASAN_OPTIONS="detect_leaks=0"))
         if crash is not None:
             return False
-        text = "".join(l + "\n" for l in s) if against == "model" else annotate([s], [ans])
-        ref = ctx.model("cbuf", text, args=[against])
+        ref = ctx.model("cbuf", annotate([s], [ans]), args=[against])
         return ans != ref
     try:
         return ddmin(seq, fails, keep_head=1, max_tests=150)
